@@ -19,6 +19,7 @@ import ShapeVerif.Proofs.QuadGen
 import ShapeVerif.Proofs.DerivGen
 import ShapeVerif.Gen.Arith
 import ShapeVerif.Gen.Integrals
+import ShapeVerif.Proofs.ChordCutGen
 
 namespace ShapeVerif.C04
 open ShapeVerif
@@ -100,6 +101,31 @@ theorem source_open_linspace_is_model (n : Nat) : Gen.openLinspace n = openNodes
 /-- `Math.closed_linspace(n)` as written in the source: i/(n−1), i < n; first node 0, last node 1 -/
 theorem source_closed_linspace (n : Nat) : Gen.closedLinspace n = (List.range n).map fun i => ((i : Nat) : Rat) / ((n - 1 : Nat) : Rat) := by
   simp only [Gen.closedLinspace]
+
+/-! ### Green anchors: second moments of triangles, and additivity under a chord cut (with triangulation this pins the functional down) -/
+
+theorem triangle_second_moments (p q r : Pt) :
+    Jordan.moment (Jordan.fromVertices [p, q, r]) 2 0
+        = triCross p q r / 12 * (p.x ^ 2 + q.x ^ 2 + r.x ^ 2 + p.x * q.x + q.x * r.x + r.x * p.x) ∧
+    Jordan.moment (Jordan.fromVertices [p, q, r]) 0 2
+        = triCross p q r / 12 * (p.y ^ 2 + q.y ^ 2 + r.y ^ 2 + p.y * q.y + q.y * r.y + r.y * p.y) ∧
+    Jordan.moment (Jordan.fromVertices [p, q, r]) 1 1
+        = triCross p q r / 24 * (2 * (p.x * p.y + q.x * q.y + r.x * r.y) + p.x * q.y + q.x * p.y + q.x * r.y + r.x * q.y
+            + r.x * p.y + p.x * r.y) :=
+  ⟨triangle_moment_20 p q r, triangle_moment_02 p q r, triangle_moment_11 p q r⟩
+
+/-- cutting the polygon p, l1…, q, l2… along the chord p–q: EVERY moment of the whole is the sum of the moments of the two parts (the chord is
+traversed once in each direction and cancels) — all vertex lists, all exponents, degenerate cuts included -/
+theorem moment_additive_under_chord_cut (l1 l2 : List Pt) (p q : Pt) (a b : Nat) :
+    Jordan.moment (Jordan.fromVertices (p :: l1 ++ q :: l2)) a b
+      = Jordan.moment (Jordan.fromVertices (p :: l1 ++ [q])) a b + Jordan.moment (Jordan.fromVertices (q :: l2 ++ [p])) a b :=
+  chord_cut_moment l1 l2 p q a b
+
+/-- in particular a quadrilateral is its two triangles: area and every moment -/
+theorem quadrilateral_is_two_triangles (p u q w : Pt) (a b : Nat) :
+    Jordan.moment (Jordan.fromVertices [p, u, q, w]) a b
+      = Jordan.moment (Jordan.fromVertices [p, u, q]) a b + Jordan.moment (Jordan.fromVertices [q, w, p]) a b :=
+  chord_cut_moment [u] [w] p q a b
 
 /-! ### the quadrature loop of `IntegratePlanar.vertical` as written in the source -/
 
